@@ -172,7 +172,7 @@ class Stub:
         return low + np.asarray(self.fracs, dtype=float) * (high - low)
 
     def choice(self, a, size=None):
-        a = list(a)
+        a = list(range(int(a))) if isinstance(a, (int, np.integer)) else list(a)  # numpy semantics: an int means arange
         self.offered = a
         return np.asarray([a[self.choice_answer % len(a)]])
 
@@ -579,7 +579,9 @@ def prio_item(item, col):
 
     deltas = [0.0, 1e-8, 0.5, 1.0, 2.0, 1e6]
     for alpha in (0.4, 0.6, 1.0):
-        for minp in (1.0, 0.5):
+        for minp in (1.0, 0.5, 2.0, 4.0):  # floors above 1 too: the floor is raised to the power like every other value
+            # errors just above the floor, where a floor that skips the power would break monotonicity
+            deltas = sorted(set([0.0, 1e-8, 0.5, 1.0, 2.0, 1e6] + [minp, minp * 1.0125, minp * 1.5]))
             p = np.asarray(rb.lap_priority(jnp.asarray(deltas), minp, alpha), dtype=float)
             col.tick(1, ("lap", alpha, minp))
             if not (np.all(p > 0) and np.all(np.isfinite(p))):
